@@ -104,7 +104,7 @@ def getRun (ns : List Node) (loc : Loc) : Option Run :=
 /-- width of a run child in the units of `get_run_text` -/
 def Atom.width : Atom → Nat
   | .t s | .dt s => s.length
-  | .tab | .br | .cr => 1
+  | .tab | .br | .cr | .brT _ => 1
   | _ => 0
 
 /-- `_split_run_at_index`, distribution of the children -/
@@ -740,10 +740,13 @@ def splitBreaks (t : Str) : List Str :=
   go [] t
 
 /-- `_track_insert_inline_lines`: children of one inline `w:ins` for a text with line breaks (a `w:br` run per break) -/
+def brRun (style : Option Run) : InsChild :=
+  .run { applyRunProps style ⟨[], false, false⟩ false with ch := [.br] }
+
 def inlineLines (text : Str) (style : Option Run) : List InsChild :=
-  (splitBreaks text).zipIdx.flatMap fun (line, i) =>
-    (if i = 0 then [] else [InsChild.run { applyRunProps style ⟨[], false, false⟩ false with ch := [.br] }]) ++
-      insRuns line style false
+  match splitBreaks text with
+  | [] => []
+  | l :: ls => insRuns l style false ++ ls.flatMap fun line => brRun style :: insRuns line style false
 
 /-- what replaces a rewritten insertion: a text with line breaks stays one inline insertion (breaks as `w:br`),
 otherwise `track_insert` with the (detached) style source -/
